@@ -1183,13 +1183,28 @@ class Structure(UniqueMixin, metaclass=StructMeta):
                 getattr(self, "_none_fields").add(key)
             return
 
-        if (
-                key in self.get_all_fields_by_name()
-                and getattr(self, ENABLE_UNDEFINED, False)
-                and value is not None
-        ):
-            getattr(self, "_none_fields").discard(key)
-        super().__setattr__(key, value)
+        # an assignment that is rejected - by the field, by a check the field makes after it stored
+        # the value, or by __validate__ - must leave the instance as it was
+        was_set = key in self.__dict__
+        previous = self.__dict__.get(key)
+        none_fields = self.__dict__.get("_none_fields")
+        was_none = none_fields is not None and key in none_fields
+        try:
+            if (
+                    key in self.get_all_fields_by_name()
+                    and getattr(self, ENABLE_UNDEFINED, False)
+                    and value is not None
+            ):
+                getattr(self, "_none_fields").discard(key)
+            super().__setattr__(key, value)
+        except Exception:
+            if was_set:
+                self.__dict__[key] = previous
+            else:
+                self.__dict__.pop(key, None)
+            if was_none:
+                none_fields.add(key)
+            raise
 
         if (
                 TypedPyDefaults.uniqueness_features_enabled
